@@ -141,3 +141,85 @@ func vxH13Srv(msize int, nreq int, paymax int, ncuts int) {
 	}
 	vxReach("done")
 }
+
+
+// H13.srv-session: the whole session, starting with the Tversion that changes msize and dialect, is one byte
+// stream: later messages of the same transport read must be parsed under the newly negotiated parameters, and
+// none may be left unparsed until more bytes happen to arrive.
+func vxH13SrvSession(msize int, clientDotu bool, nreq int, ncuts int) {
+	ver := "9P2000"
+	if clientDotu {
+		ver = "9P2000.u"
+	}
+	// the requests behind the Tversion are independent of each other (each attaches its own fid), so the session
+	// is valid under any execution order of the workers
+	var stream []byte
+	stream = append(stream, refEncode(Tversion, NOTAG, []refItem{refU32(uint32(msize)), refS(ver)}, clientDotu)...)
+	for i := 0; i < nreq; i++ {
+		att := []refItem{refU32(uint32(i)), refU32(NOFID), refS(""), refS(vxString("aname", 1))}
+		if clientDotu {
+			att = append(att, refU32(0))
+		}
+		stream = append(stream, refEncode(Tattach, uint16(30+i), att, clientDotu)...)
+	}
+	L := len(stream)
+	var cuts []int
+	lo := 1
+	if ncuts < 0 {
+		for c := 1; c < L; c++ {
+			cuts = append(cuts, c)
+		}
+	}
+	for i := 0; i < ncuts; i++ {
+		if lo >= L {
+			break
+		}
+		c := lo + vxChoose("cut", L-lo)
+		cuts = append(cuts, c)
+		lo = c + 1
+	}
+	run := func(cuts []int) ([]byte, int, bool) {
+		kit := vxNewKit(false, false, 8192, true) // a .u-capable server with a large msize of its own
+		kit.ops.echo = true
+		nc := vxNewNetConn()
+		kit.srv.NewConn(nc)
+		vxQuiesce()
+		prev := 0
+		for _, c := range cuts {
+			if c > prev {
+				nc.in <- stream[prev:c]
+				vxQuiesce()
+				prev = c
+			}
+		}
+		if prev < len(stream) {
+			nc.in <- stream[prev:]
+			vxQuiesce()
+		}
+		alive := false
+		for range kit.srv.conns {
+			alive = true
+		}
+		return nc.wire, kit.ops.ncalls("attach"), alive
+	}
+	refWire, refReads, refAlive := run(nil)
+	gotWire, gotReads, gotAlive := run(cuts)
+	vxAssert(refAlive && gotAlive, "connection-survives-valid-session")
+	vxAssert(refReads == nreq, "one-segment-delivery-executes-every-request")
+	vxAssert(gotReads == nreq, "segmented-delivery-executes-every-request")
+	rf, ok1 := vxFrames(refWire)
+	gf, ok2 := vxFrames(gotWire)
+	vxAssert(ok1 && ok2 && len(rf) == nreq+1 && len(gf) == nreq+1, "every-message-answered-once")
+	if ok1 && ok2 && len(rf) == len(gf) {
+		for _, a := range rf {
+			match := false
+			for _, b := range gf {
+				if a.tag == b.tag && a.typ == b.typ {
+					match = refBytesEq(a.raw, b.raw)
+				}
+			}
+			vxAssert(match, "same-replies")
+		}
+	}
+	vxReach("done")
+}
